@@ -127,7 +127,8 @@ Fixpoint radvance (fuel : nat) (t : nat) (s : rstate) (th : rthread) : rstate * 
                        end in
             let c1 := dcstep c t in
             (* the callbacks this step called *)
-            let calls := map (fun v => DaVisit t (snd v)) (skipn (length (dvis c)) (dvis c1)) in
+            let calls := map (fun v => DaVisit t (match node_of c1 (snd (fst v)) (snd v) with Some nd => cb nd | None => 0 end))
+                             (skipn (length (dvis c)) (dvis c1)) in
             radvance f t (mkRS c1 (rregs s) (rths s) (rev calls ++ rlog s)) th1
       end
   end.
